@@ -55,8 +55,9 @@ def random_wf_reply(rng, big=False):
     k = rng.range(0, 4)
     mids = []
     for _ in range(k):
-        r = rng.below(6)
-        if r == 0: m = b"%03d-" % code + text(100)
+        r = rng.below(7)
+        if r == 6: m = b"%03d" % code + rng.choice([b"", b"\t", b"\x0b", b"\x0c", b"\tx y", b"-", b"x", b"\xa0z"]) + (text(20) if rng.chance(1, 3) else b"")   # own code, no space
+        elif r == 0: m = b"%03d-" % code + text(100)
         elif r == 1: m = b"%03d " % ((code + 1 - 100) % 500 + 100) + text(100)       # another code
         elif r == 2: m = rng.bytes(rng.range(0, 3), alphabet=b"0123456789") + text(100)
         elif r == 3: m = b" " + text(100)
